@@ -236,13 +236,24 @@ Proof.
   unfold pw_assign_branch. cbn. destruct (existsb targ_matches targets); reflexivity.
 Qed.
 
+(* a keyword the B106 loop passes over whatever its name: its value is not a string literal, or it is a
+   "**mapping" argument (kw.arg is None -- the shape that raised TypeError before the repair) *)
+Definition kw_skipped (kw : node) : bool :=
+  negb (is_Str (field "value" kw)) || match kw_arg kw with None => true | Some _ => false end.
+
+Lemma kw_skipped_hit kw : kw_skipped kw = true -> kw_hit kw = None.
+Proof.
+  unfold kw_skipped, kw_hit. intro H. apply orb_true_iff in H as [H|H].
+  - apply negb_true_iff in H. rewrite (is_Str_str_of _ H). reflexivity.
+  - destruct (str_of (field "value" kw)); [|reflexivity]. destruct (kw_arg kw); [discriminate|reflexivity].
+Qed.
+
 Lemma funcarg_scan_skip pre kws :
-  forallb (fun kw => negb (is_Str (field "value" kw))) pre = true ->
-  funcarg_scan (pre ++ kws) = funcarg_scan kws.
+  forallb kw_skipped pre = true -> funcarg_scan (pre ++ kws) = funcarg_scan kws.
 Proof.
   induction pre as [|kw pre IH]; simpl; [reflexivity|].
-  intro H. apply andb_true_iff in H as [H1 H2]. apply negb_true_iff in H1.
-  rewrite (is_Str_str_of _ H1). apply IH; exact H2.
+  intro H. apply andb_true_iff in H as [H1 H2].
+  rewrite (kw_skipped_hit _ H1). apply IH; exact H2.
 Qed.
 
 Lemma default_scan_skip_none pre l1 l2 :
@@ -285,13 +296,13 @@ Theorem password_positions :
      c_parents c = (mk_compare p2 (mk_attr p3 obj name) ops (mk_str p4 lit :: more), sib) :: rest ->
      hardcoded_password_string cfg c =
        if re_search re_candidates name then Ok (Some (pw_report lit)) else Ok None) /\
-  (* 4. keyword argument:   f(..., k=<non-string>, ..., name='lit', ...)   (B106); the first string-valued
-        keyword decides when it matches, otherwise the scan goes on *)
+  (* 4. keyword argument:   f(..., k=<non-string>, **'x', ..., name='lit', ...)   (B106); the first
+        named string-valued keyword decides when it matches, otherwise the scan goes on *)
   (forall cfg c p p2 p3 func args pre name lit post,
      c_node c = mk_call p func args (pre ++ mk_keyword p2 (NId name) (mk_str p3 lit) :: post) ->
-     forallb (fun kw => negb (is_Str (field "value" kw))) pre = true ->
+     forallb kw_skipped pre = true ->
      hardcoded_password_funcarg cfg c =
-       if re_search re_candidates name then Ok (Some (pw_report lit)) else funcarg_scan post) /\
+       if re_search re_candidates name then Ok (Some (pw_report lit)) else Ok (funcarg_scan post)) /\
   (* 5. parameter default:   def f(p, ..., /, a, b, ..., name='lit')   (B107): last positional-or-keyword
         parameter carrying the only default *)
   (forall cfg c p fname posonly pre p2 name ann p3 lit vararg kwonly kwdefs kwarg body decos,
@@ -602,9 +613,10 @@ Proof. vm_compute. split; reflexivity. Qed.
 (* only string literals are ever quoted                                                        *)
 
 Lemma funcarg_scan_nonstr kws :
-  forallb (fun kw => negb (is_Str (field "value" kw))) kws = true -> funcarg_scan kws = Ok None.
+  forallb (fun kw => negb (is_Str (field "value" kw))) kws = true -> funcarg_scan kws = None.
 Proof.
-  intro H. rewrite <- (app_nil_r kws). rewrite (funcarg_scan_skip _ _ H). reflexivity.
+  intro H. rewrite <- (app_nil_r kws). rewrite funcarg_scan_skip; [reflexivity|].
+  rewrite forallb_forall in *. intros kw Hin. unfold kw_skipped. rewrite (H kw Hin). reflexivity.
 Qed.
 
 Lemma default_scan_nonstr l :
@@ -643,13 +655,12 @@ Proof.
     destruct (is_candidate _); [exact Hf | discriminate].
 Qed.
 
-(* B106 / B107 never report (and never raise) when no keyword value / default is a string literal;
+(* B106 / B107 never report when no keyword value / default is a string literal;
    whatever B105 reports quotes a string literal: the visited one (Assign branch), the value assigned to the
    subscript (Subscript / Index branches) or the first comparator (Compare branch) *)
 Theorem secrets_nonliteral_silent :
-  (forall cfg c kws,
-     field_opt "keywords" (c_node c) = Some kws ->
-     forallb (fun kw => negb (is_Str (field "value" kw))) (items kws) = true ->
+  (forall cfg c,
+     forallb (fun kw => negb (is_Str (field "value" kw))) (field_list "keywords" (c_node c)) = true ->
      hardcoded_password_funcarg cfg c = Ok None) /\
   (forall cfg c a,
      field_opt "args" (c_node c) = Some a ->
@@ -714,8 +725,8 @@ Proof.
         * destruct (is_cls "Compare" parent) eqn:EC; [|discriminate].
           intro H. destruct (pw_compare_some _ _ H) as [s [-> Hv]]. exists s. auto 10. }
   split; [|split; [|split; [exact B105|split]]].
-  - intros cfg c kws Hf Hall. unfold hardcoded_password_funcarg. rewrite Hf.
-    apply funcarg_scan_nonstr; exact Hall.
+  - intros cfg c Hall. unfold hardcoded_password_funcarg.
+    rewrite (funcarg_scan_nonstr _ Hall). reflexivity.
   - intros cfg c a Hf Hall. unfold hardcoded_password_default. rewrite Hf.
     apply default_scan_nonstr. intros k v Hin. apply in_combine_r in Hin.
     unfold pad_defaults in Hin. apply in_app_or in Hin as [Hin|Hin].
@@ -753,3 +764,202 @@ Example secrets_nonliteral_silent_ex :
     (ctx_at key [(mk_compare None (mk_name None (s2p "password")) [Node "Eq" None []; Node "Eq" None []] [five; key],
                   NNone)]) = Ok None.
 Proof. vm_compute. repeat split. Qed.
+
+(* ------------------------------------------------------------------------------------------ *)
+(* totality: which checks can no longer raise                                                  *)
+
+(* B106 is total: "**mapping" keywords are skipped *)
+Theorem funcarg_never_raises : forall cfg c, exists r, hardcoded_password_funcarg cfg c = Ok r.
+Proof. intros cfg c. eexists. reflexivity. Qed.
+
+Example funcarg_never_raises_ex :
+  (* f( **'x', password='p') *)
+  hardcoded_password_funcarg JNull
+    (call_ctx (mk_call None (mk_name None (s2p "f")) []
+                       [mk_keyword None NNone (mk_str None (s2p "x"));
+                        mk_keyword None (NId (s2p "password")) (mk_str None (s2p "p"))])
+              (s2p "f") []) = Ok (Some (pw_report (s2p "p"))).
+Proof. vm_compute. reflexivity. Qed.
+
+(* B104 is total *)
+Theorem bind_all_never_raises : forall cfg c, exists r, hardcoded_bind_all_interfaces cfg c = Ok r.
+Proof.
+  intros cfg c. unfold hardcoded_bind_all_interfaces.
+  destruct (c_str c) as [s|]; [destruct (pstr_eqb s all_interfaces)|]; eexists; reflexivity.
+Qed.
+
+(* B108 is total on every Str-check context (context.string_val is set) whenever the effective
+   configuration yields a list of strings -- in particular under the default configuration, be it absent
+   (None) or the gen_config dictionary *)
+Theorem tmp_default_never_raises : forall c s,
+  c_str c = Some s ->
+  (exists r, hardcoded_tmp_directory JNull c = Ok r) /\
+  (exists r, hardcoded_tmp_directory (JDict [(key_tmp_dirs, default_tmp_dirs)]) c = Ok r) /\
+  (forall cfg dirs, tmp_dirs_of cfg = Ok (JList (map JStr dirs)) ->
+                    exists r, hardcoded_tmp_directory cfg c = Ok r).
+Proof.
+  intros c s Hs.
+  assert (G : forall cfg dirs, tmp_dirs_of cfg = Ok (JList (map JStr dirs)) ->
+                               exists r, hardcoded_tmp_directory cfg c = Ok r).
+  { intros cfg dirs Hd. destruct (tmp_prefix_rule cfg c s dirs Hs Hd) as [-> _].
+    destruct (existsb (startswith s) dirs); eexists; reflexivity. }
+  split; [|split; [|exact G]].
+  - apply (G JNull [s2p "/tmp"; s2p "/var/tmp"; s2p "/dev/shm"]). reflexivity.
+  - apply (G _ [s2p "/tmp"; s2p "/var/tmp"; s2p "/dev/shm"]). reflexivity.
+Qed.
+
+(* ... and it still raises under a user configuration (see tmp_prefix_rule_ex for a non-string entry) *)
+Example tmp_user_config_raises :
+  hardcoded_tmp_directory (JDict [(key_tmp_dirs, JNull)]) (ctx_at (mk_str None (s2p "x")) []) = Raise TypeError /\
+  hardcoded_tmp_directory (JInt 5) (ctx_at (mk_str None (s2p "x")) []) = Raise TypeError.
+Proof. vm_compute. split; reflexivity. Qed.
+
+(* B105 is total on the contexts the visitor builds for a Str check: the visited node is a string
+   Constant, it has a parent, a Subscript (Index) parent has itself a parent (two ancestors), and a
+   Compare has at least one comparator *)
+Theorem password_string_never_raises : forall cfg c s,
+  str_of (c_node c) = Some s ->
+  c_parents c <> [] ->
+  (is_cls "Subscript" (parent_of c) = true -> 2 <= List.length (c_parents c)) ->
+  (is_cls "Index" (parent_of c) = true -> 3 <= List.length (c_parents c)) ->
+  (is_cls "Compare" (parent_of c) = true -> field_list "comparators" (parent_of c) <> []) ->
+  exists r, hardcoded_password_string cfg c = Ok r.
+Proof.
+  intros cfg c s Hs Hne Hsub Hidx Hcmp.
+  unfold hardcoded_password_string, parent_of in *.
+  destruct (c_parents c) as [|[parent sib] rest] eqn:Hp; [contradiction|].
+  unfold ancestor. rewrite Hp. simpl.
+  pose proof (str_of_const _ _ Hs) as Hk.
+  assert (Cmp : is_cls "Compare" parent = true -> exists r, pw_compare_branch parent = Ok r).
+  { intro HC. specialize (Hcmp HC). unfold pw_compare_branch, pw_compare_first.
+    destruct (field_list "comparators" parent) as [|c0 l]; [contradiction|].
+    destruct (is_cls "Name" (field "left" parent)).
+    - destruct (is_candidate _); [destruct (str_of c0)|]; eexists; reflexivity.
+    - destruct (is_cls "Attribute" (field "left" parent)); [|eexists; reflexivity].
+      destruct (is_candidate _); [destruct (str_of c0)|]; eexists; reflexivity. }
+  assert (Tail : exists r, (if is_cls "Compare" parent then pw_compare_branch parent else Ok None) = Ok r).
+  { destruct (is_cls "Compare" parent) eqn:EC; [apply Cmp; reflexivity | eexists; reflexivity]. }
+  destruct (is_cls "Assign" parent).
+  { unfold pw_assign_branch, node_s_text. rewrite Hk.
+    destruct (existsb targ_matches (field_list "targets" parent)); eexists; reflexivity. }
+  unfold node_s_search. rewrite Hk.
+  destruct (is_cls "Subscript" parent) eqn:ES; simpl.
+  - destruct (is_candidate s).
+    + specialize (Hsub eq_refl). unfold pw_subscript_branch, ancestor. rewrite Hp.
+      destruct rest as [|[g gs] rest']; [simpl in Hsub; lia|]. simpl. eexists; reflexivity.
+    + destruct (is_cls "Index" parent) eqn:EI; simpl; [|exact Tail].
+      pose proof (is_cls_inj _ _ _ ES EI) as X; discriminate X.
+  - destruct (is_cls "Index" parent) eqn:EI; simpl; [|exact Tail].
+    destruct (is_candidate s); [|exact Tail].
+    specialize (Hidx eq_refl). unfold pw_subscript_branch, ancestor. rewrite Hp.
+    destruct rest as [|[g gs] [|[g2 gs2] rest']]; simpl in Hidx; try lia. simpl. eexists; reflexivity.
+Qed.
+
+(* B107 is total on well-formed FunctionDef nodes (every parameter an ast.arg carrying its name) *)
+Lemma default_scan_total l :
+  (forall k v, In (k, v) l -> wf_arg k) -> exists r, default_scan l = Ok r.
+Proof.
+  induction l as [|[k v] l IH]; intro H; simpl; [eexists; reflexivity|].
+  assert (Hl : exists r, default_scan l = Ok r) by (apply IH; intros k' v' Hin; apply (H k' v'); right; exact Hin).
+  destruct (H k v (or_introl eq_refl)) as [Hcls [a Ha]].
+  rewrite Hcls, orb_true_r, Ha.
+  destruct v as [v|]; [|exact Hl].
+  destruct (is_none_constant v); [exact Hl|].
+  destruct (str_of v); [|exact Hl].
+  destruct (is_candidate a); [eexists; reflexivity | exact Hl].
+Qed.
+
+Theorem password_default_never_raises : forall cfg c a,
+  field_opt "args" (c_node c) = Some a ->
+  Forall wf_arg (field_list "posonlyargs" a ++ field_list "args" a) ->
+  exists r, hardcoded_password_default cfg c = Ok r.
+Proof.
+  intros cfg c a Hf Hwf. unfold hardcoded_password_default. rewrite Hf.
+  apply default_scan_total. intros k v Hin. apply in_combine_l in Hin.
+  rewrite Forall_forall in Hwf. exact (Hwf _ Hin).
+Qed.
+
+(* Context._get_literal_value no longer raises (a set display skips its unhashable elements) *)
+Module LiteralTotal.
+#[local] Arguments String.eqb : simpl never.
+
+Definition lv_ok (n : node) : Prop := exists v, literal_value n = Ok v.
+
+Ltac elts_ok H :=
+  match goal with
+  | |- exists v, bind ?e _ = Ok v =>
+      let He := fresh "He" in
+      assert (He : exists l, e = Ok l);
+      [ clear - H; induction H as [|[k v] t Hv Ht IH]; simpl;
+        [ eexists; reflexivity
+        | destruct (String.eqb "elts" k); [|exact IH];
+          destruct v; try (eexists; reflexivity);
+          destruct Hv as [_ Hv]; specialize (Hv _ eq_refl); clear - Hv;
+          induction Hv as [|i is' [x Hx] His IHi]; simpl;
+          [ eexists; reflexivity
+          | rewrite Hx; simpl; destruct IHi as [xs ->]; simpl; eexists; reflexivity ] ]
+      | destruct He as [l ->]; simpl ]
+  end.
+
+Lemma literal_value_total_strong :
+  forall n, lv_ok n /\ (forall l, n = NList l -> Forall lv_ok l).
+Proof.
+  induction n as [c p fs H|l H| | | |] using node_ind'.
+  - split; [|discriminate]. unfold lv_ok. simpl.
+    destruct (String.eqb c "Constant").
+    { destruct (lookup_field "value" fs) as [[]|]; eexists; reflexivity. }
+    destruct (String.eqb c "List"). { elts_ok H. eexists; reflexivity. }
+    destruct (String.eqb c "Tuple"). { elts_ok H. eexists; reflexivity. }
+    destruct (String.eqb c "Set").
+    { elts_ok H. generalize (@nil pyval). induction l as [|v l IH]; intro acc; simpl.
+      - eexists; reflexivity.
+      - destruct (hashable v); apply IH. }
+    destruct (String.eqb c "Dict"). { eexists; reflexivity. }
+    destruct (String.eqb c "Name"); eexists; reflexivity.
+  - split; [exists PNone; reflexivity|]. intros l' E; inversion E; subst.
+    eapply Forall_impl; [|exact H]. intros a [Ha _]; exact Ha.
+  - split; [exists PNone; reflexivity | discriminate].
+  - split; [exists PNone; reflexivity | discriminate].
+  - split; [exists PNone; reflexivity | discriminate].
+  - split; [exists PNone; reflexivity | discriminate].
+Qed.
+End LiteralTotal.
+
+Lemma literal_value_total n : exists v, literal_value n = Ok v.
+Proof. exact (proj1 (LiteralTotal.literal_value_total_strong n)). Qed.
+
+Lemma get_call_arg_at_position_total c i : exists v, get_call_arg_at_position c i = Ok v.
+Proof.
+  unfold get_call_arg_at_position. destruct (c_call c) as [call|]; [|eexists; reflexivity].
+  destruct (Nat.ltb i (List.length (field_list "args" call))); [|eexists; reflexivity].
+  destruct (is_cls "Attribute" (nth i (field_list "args" call) NNone)
+            && truthy_str (attr_of (nth i (field_list "args" call) NNone))).
+  - eexists; reflexivity.
+  - apply literal_value_total.
+Qed.
+
+(* B103 is total on every Call-check context (context.call_function_name is set) *)
+Theorem chmod_never_raises : forall cfg c nm,
+  c_name c = Some nm -> exists r, set_bad_file_permissions cfg c = Ok r.
+Proof.
+  intros cfg c nm Hn. unfold set_bad_file_permissions. rewrite Hn.
+  destruct (contains nm chmod_name); [|eexists; reflexivity].
+  destruct (call_args_count c) as [[|[|[|k]]]|]; try (eexists; reflexivity).
+  unfold chmod_check_mode.
+  destruct (get_call_arg_at_position_total c 1) as [mode ->]. simpl.
+  destruct mode; try (eexists; reflexivity).
+  destruct (stat_is_dangerous z); [|eexists; reflexivity].
+  unfold chmod_filename. destruct (get_call_arg_at_position_total c 0) as [v ->]. simpl.
+  destruct v; simpl; eexists; reflexivity.
+Qed.
+
+Example chmod_never_raises_ex :
+  (* os.chmod({[1]}, 0o777): the set display loses its unhashable element and renders as set() *)
+  let lst := Node "List" None [("elts", NList [mk_int None 1]); ("ctx", Node "Load" None [])] in
+  let st := Node "Set" None [("elts", NList [lst])] in
+  set_bad_file_permissions JNull
+    (call_ctx (mk_call None (mk_attr None (mk_name None (s2p "os")) (s2p "chmod")) [st; mk_int None 511] [])
+              (s2p "os.chmod") []) =
+  Ok (Some (RIssue HIGH HIGH 732 (s2p "Chmod setting a permissive mask 0o777 on file (set()).")
+                   None None None None)).
+Proof. vm_compute. reflexivity. Qed.
